@@ -1128,6 +1128,19 @@ def _is_spec(obj, strict=False):
     return _has_callable_glomit(obj)  # pragma: no cover
 
 
+class _TCall(Call):
+    """the call step of a T expression: what is called and what it is
+    called with have been evaluated already"""
+    def __init__(self, func, args, kwargs):
+        self.func, self.args, self.kwargs = func, args, kwargs
+
+    def glomit(self, target, scope):
+        return self.func(*self.args, **self.kwargs)
+
+    def __repr__(self):
+        return 'Call(%s, args=%r, kwargs=%r)' % (bbrepr(self.func), self.args, self.kwargs)
+
+
 class Invoke:
     """Specifier type designed for easy invocation of callables from glom.
 
@@ -1628,10 +1641,10 @@ def _t_eval(target, _t, scope):
         elif op == '(':
             args, kwargs = arg
             scope[Path] += t_path[2:i+2:2]
-            # args and kwargs were evaluated above: what they hold now
-            # is data, even if it looks like a spec
+            # cur, args and kwargs are values by now: data, even if
+            # they look like specs (or are None)
             cur = scope[glom](
-                target, Call(cur, Val(args), Val(kwargs)), scope)
+                target, _TCall(cur, args, kwargs), scope)
             # call with target rather than cur,
             # because it is probably more intuitive
             # if args to the call "reset" their path
